@@ -6,6 +6,11 @@
   `Spil/Spec/PathWF.lean`) no earlier template matches a path that a later template rendered from
   admissible CONCRETE values (`c05_exclusion`), so the Sid's own template answers, reads its own
   values back (`c05_own_parse_nl`) and `Sid(path=sid.path())` is the Sid (`c05_roundtrip`).
+
+  Of the configuration the theorems ask `Spec.pathTplsOk` (the TEMPLATE half of `pathConfOk`) and
+  `pathsExclusive` only: value mappings and defaults enter through the Sid (`Admissible.back`,
+  `.values`), so two disk words for one sid value, partial mappings or a default for a free
+  template key do not take a configuration out of the theorems' reach.
 -/
 import Spil.Props.C05b
 import Spil.Lemmas.ExclRound
@@ -70,7 +75,7 @@ structure Admissible (c : Ctx) (pc : PathConf) (t : Template) (kts : List Str) (
 
 /-- the parse-back half: `path_to_dict` returns the Sid's own type and fields -/
 theorem c05_parse_back (c : Ctx) (cfg : Option Str) (pc : PathConf)
-    (hpc : c.cfg.pathConf? cfg = some pc) (hwf : pathConfOk c.env pc = true)
+    (hpc : c.cfg.pathConf? cfg = some pc) (hwf : pathTplsOk c.env pc = true)
     (hex : pathsExclusive c.env c.cfg.sid.searchSymbols pc = true)
     (x : Sid) (p : Str) (t : Template) (kts : List Str) (hx : Admissible c pc t kts x p)
     (hp : c.sidPath cfg x = .ok (some p)) :
@@ -83,7 +88,7 @@ theorem c05_parse_back (c : Ctx) (cfg : Option Str) (pc : PathConf)
     simpa using this
   subst hpp
   have hmem : (x.type, t) ∈ pc.templates := Det.lookup_some_mem pc.templates x.type t hx.tpl
-  have hok := Det.confOk_tpl c.env pc hwf x.type t hmem
+  have hok := pathTplsOk_tpl c.env pc hwf x.type t hmem
   obtain ⟨d, hd, hget, hdk⟩ := c05_own_parse_nl c.env t _ path hok hx.values hkeys hne hpath
   have hpne : path.isEmpty = false := by
     have := Excl.normalize_ne_nil path
@@ -99,7 +104,7 @@ theorem c05_parse_back (c : Ctx) (cfg : Option Str) (pc : PathConf)
 
 /-- C05: `Sid(path=sid.path(config), config=config)` is `sid` -/
 theorem c05_roundtrip (c : Ctx) (cfg : Option Str) (pc : PathConf)
-    (hpc : c.cfg.pathConf? cfg = some pc) (hwf : pathConfOk c.env pc = true)
+    (hpc : c.cfg.pathConf? cfg = some pc) (hwf : pathTplsOk c.env pc = true)
     (hex : pathsExclusive c.env c.cfg.sid.searchSymbols pc = true)
     (x : Sid) (p : Str) (t : Template) (kts : List Str) (hx : Admissible c pc t kts x p)
     (hp : c.sidPath cfg x = .ok (some p)) :
@@ -112,7 +117,7 @@ theorem c05_roundtrip (c : Ctx) (cfg : Option Str) (pc : PathConf)
 
 /-- C05, second clause: two (admissible) Sids with the same path are the same Sid -/
 theorem c05_injective (c : Ctx) (cfg : Option Str) (pc : PathConf)
-    (hpc : c.cfg.pathConf? cfg = some pc) (hwf : pathConfOk c.env pc = true)
+    (hpc : c.cfg.pathConf? cfg = some pc) (hwf : pathTplsOk c.env pc = true)
     (hex : pathsExclusive c.env c.cfg.sid.searchSymbols pc = true)
     (x y : Sid) (p : Str) (t t' : Template) (kts kts' : List Str)
     (hx : Admissible c pc t kts x p) (hy : Admissible c pc t' kts' y p)
@@ -182,7 +187,7 @@ theorem ex_assetFile_admissible :
 
 /-- an asset file in the default (`local`) configuration -/
 theorem ex_roundtrip_assetFile : demoCtx.sidOfPath xAssetFilePath none = .ok xAssetFile :=
-  c05_roundtrip demoCtx none demoPath_local (by decide +kernel) Tie.demo_path_wf_local
+  c05_roundtrip demoCtx none demoPath_local (by decide +kernel) (pathTplsOk_of_confOk _ _ Tie.demo_path_wf_local)
     Tie.demo_paths_exclusive_local xAssetFile xAssetFilePath _ _ ex_assetFile_admissible
     (eq_ok_of_test _ _ (by decide +kernel))
 
@@ -204,7 +209,7 @@ theorem ex_shotCacheNode_admissible :
     the separator '_') -/
 theorem ex_roundtrip_shotCacheNode :
     demoCtx.sidOfPath xShotCacheNodePath none = .ok xShotCacheNode :=
-  c05_roundtrip demoCtx none demoPath_local (by decide +kernel) Tie.demo_path_wf_local
+  c05_roundtrip demoCtx none demoPath_local (by decide +kernel) (pathTplsOk_of_confOk _ _ Tie.demo_path_wf_local)
     Tie.demo_paths_exclusive_local xShotCacheNode xShotCacheNodePath _ _
     ex_shotCacheNode_admissible (eq_ok_of_test _ _ (by decide +kernel))
 
@@ -227,7 +232,7 @@ theorem ex_shotCache_admissible :
 theorem ex_roundtrip_shotCache :
     demoCtx.sidOfPath xShotCachePath (some ['s','e','r','v','e','r']) = .ok xShotCache :=
   c05_roundtrip demoCtx (some ['s','e','r','v','e','r']) demoPath_server (by decide +kernel)
-    Tie.demo_path_wf_server Tie.demo_paths_exclusive_server xShotCache xShotCachePath _ _
+    (pathTplsOk_of_confOk _ _ Tie.demo_path_wf_server) Tie.demo_paths_exclusive_server xShotCache xShotCachePath _ _
     ex_shotCache_admissible (eq_ok_of_test _ _ (by decide +kernel))
 
 end Demo
